@@ -4,7 +4,7 @@
    with that union as the known names (objects_independent); origin_consistent and rows_in_order for
    tuples; the reader with one rule set is the module-level iter_table (read_table_one). *)
 From Coq Require Import ZArith List Bool Lia.
-From AK Require Import Common.Sx Common.Err C18.Base gen.C18_Consts C18.Model C18.Lemmas.
+From AK Require Import Common.Sx Common.Err C18.Base gen.C18_Consts C18.Model C18.Lemmas C18.LemmasLadder.
 Import ListNotations.
 
 (* ------------------------------------------------------------------ *)
@@ -500,3 +500,30 @@ Proof.
     + intros He. specialize (H2 He). rewrite map_length in H2. exact H2.
   - destruct H as [H1 H2]. split; [|exact H2]. destruct items; [reflexivity|discriminate].
 Qed.
+
+(* ------------------------------------------------------------------ *)
+(* ladder_origins for tuples: by objects_independent every object of a tuple is an object of the
+   reading of its own rule set, for which LemmasLadder.ladder_origins_l holds *)
+
+Lemma ladder_origins_m_l mc sh w items e t tvs j tup k ob o i v og r c :
+  Forall (fun vs => length vs = w) sh ->
+  mc_ladder mc = true ->
+  read_table_m mc sh = (items, e) ->
+  title_row sh = Some (t, tvs) ->
+  nth_error items j = Some tup ->
+  nth_error (mc_objs mc) k = Some ob -> nth_error tup k = Some (Some o) ->
+  nth_error (o_attrs o) i = Some (v, og) ->
+  (og = OCell r c \/ exists d key, og = ORange d /\ assoc_get key d = Some (r, c)) ->
+  (S t <= r <= S t + j)%nat /\
+  (exists x, cell_at sh r c = Some x /\ cell_at (fill_sheet sh) (S t + j) c = Some x) /\
+  (forall y, cell_at sh (S t + j) c = Some y -> val_empty y = false -> r = (S t + j)%nat).
+Proof.
+  intros Hw Hlad Hread Ht Hj Hk Ho Hi Hog.
+  destruct (objects_independent_l mc sh items e Hread) as [Ha _].
+  specialize (Ha j tup Hj). destruct (Forall2_nth_l _ _ _ _ _ Ha Hk) as [it [Hit Hs]].
+  rewrite Ho in Hit. injection Hit as <-. unfold single_of in Hs.
+  destruct (read_table_k (known_all (mc_objs mc)) (mc_cf mc ob) sh) as [its e1] eqn:E. cbn [fst] in Hs.
+  assert (Hl : cf_ladder (mc_cf mc ob) = true) by exact Hlad.
+  exact (ladder_origins_l _ _ _ _ _ _ _ _ _ _ _ _ _ _ _ Hw Hl E Ht Hs Hi Hog).
+Qed.
+
